@@ -229,6 +229,13 @@ func (r *foRun) oracleC02() {
 
 			if t.ID == "pre" {
 				okProv = r.preloaded(k)
+			} else if strings.HasPrefix(t.ID, "side") {
+				// stored in the backend under that key by another part of the application
+				for _, w := range r.sideWrites {
+					if w.key == k && w.tok == t && w.seq <= o.ret {
+						okProv = true
+					}
+				}
 			} else {
 				for _, b := range r.builds {
 					if b.key == k && b.exited && !b.fail && b.tok == t && b.exit <= o.ret {
